@@ -92,10 +92,15 @@ func runCheck(args []string) int {
 			c.Levels = append(c.Levels, l)
 		}
 	}
+	if pb := os.Getenv("VERIF_PORTABLE_BIN"); pb != "" {
+		if _, err := os.Stat(pb); err == nil {
+			c.Levels = append(c.Levels, levelPortable)
+		}
+	}
 	if v := os.Getenv("VERIF_LEVELS"); v != "" { // debugging aid: restrict the acceleration levels
 		c.Levels = nil
 		for _, f := range strings.Split(v, ",") {
-			if n, err := strconv.Atoi(f); err == nil && n <= c.Host {
+			if n, err := strconv.Atoi(f); err == nil && (n <= c.Host || n == levelPortable) {
 				c.Levels = append(c.Levels, n)
 			}
 		}
